@@ -140,6 +140,8 @@ def loadXbC (d : Bytes) (sauce : Option (Nat × Nat)) : RC Geo :=
         let fs := if fs = 0 then xbDefaultFontSize else fs
         if fs > xbMaxFontSize then fail else do
           let flags ← lift (rd sXb d 10)
+          -- 512-character mode without a font block is rejected (C05 repair; mirrors `Loaders.loadXb`)
+          if hasFlag flags Xb.flag512 ∧ ¬ hasFlag flags Xb.flagFont then fail else do
           let o ← lift (xbPalette d Xb.headerSize (hasFlag flags Xb.flagPalette))
           let o2 ← lift (xbFonts d o fs (hasFlag flags Xb.flagFont) (hasFlag flags Xb.flag512))
           spend (o2 - Xb.headerSize)
@@ -329,7 +331,7 @@ def tndLoopC (d : Bytes) (bw : Int) : Nat → Nat → Pos → Geo → Nat → RC
         tndLoopC d bw fuel op.1 p' g' op.2
 
 def loadTndC (d : Bytes) (sauce : Option (Nat × Nat)) : RC Geo :=
-  let g := initGeo 80 25 tndLinesCleared sauce
+  let g := tndGeo sauce          -- start buffer incl. the wide-SAUCE rule of the C05 repair (mirrors `Loaders.loadTnd`)
   if d.size < 1 + tndHeader.length then fail else do
     lift (slice sTnd d 1 (tndHeader.length + 1))
     if !matchAt d 1 tndHeader then fail else
